@@ -64,9 +64,16 @@ CbMatch(e, optLine) ==   \* optLine: <<>> or <<the line whose callback is option
        /\ \A i \in 1..Len(cb') : SubSeq(e.cb[i], 1, 6) = CmdSeq(cb'[i])
 CbSeen(e) == \A i \in 1..Len(e.cb) : e.cb[i][7] = 1
 
+\* C05: every command handed to the transport is a valid line for the configured version
+OutValid(c, pd) ==
+  LET h == [n |-> c[1], c |-> c[2], cmd |-> c[3], ack |-> c[4], sub |-> c[5]] IN
+  IF c[3] = STREAM \/ c[6] = NOW THEN HeaderOk(GwVer, h) /\ c[6] # "~~badstream" /\ c[6] # "~~noncanonical"
+  ELSE Accept(GwVer, h, pd)
+
 Match(e, optLine) ==
   /\ Clause("exc",     InP("exc")     => e.exc = exc')
   /\ Clause("out",     InP("out")     => e.out = CmdsSeq(out'))
+  /\ Clause("outvalid", InP("out")   => \A i \in 1..Len(e.out) : OutValid(e.out[i], e.outp[i]))
   /\ Clause("cb",      InP("cb")      => CbMatch(e, optLine))
   /\ Clause("cbseen",  InP("cb")      => CbSeen(e))
   /\ Clause("tree",    InP("tree")    => e.st.tree = TreeSeq(nodes'))
